@@ -11,7 +11,12 @@
 //       recorded as environment lines (`rwait`).
 //
 // ops:   tests N | fork T fail | w T eintr | w T err E | w T st HEX | inj T K |
-//        real T PHASE (ACTION ARG)+ | grp T G | cli | run
+//        real T PHASE (ACTION ARG)+ | grp T G | cli | tick T USEC | run
+//   tick T USEC : while the parent waits for real test T, a POSIX interval timer delivers SIGUSR1 to the
+//                 runner every USEC microseconds through a handler installed WITHOUT SA_RESTART, so the REAL
+//                 waitpid seam (the tree's own PlatformSpecificWaitPid implementation, which this harness
+//                 calls for real tests) is interrupted; `ticks T n ms` (informational) reports the number of
+//                 handler invocations during the test and its wall time.  (action `sleep MS`: the child sleeps)
 //   grp T G : test T belongs to group "gG" (adjacent tests with the same name form a group)
 //   cli     : the run goes through CommandLineTestRunner with argv {"runner", "-p"} (the registry is NOT
 //             put into separate-process mode by the harness) and a real ConsoleTestOutput whose
@@ -27,6 +32,7 @@
 #include <fcntl.h>
 #include <sys/prctl.h>
 #include <sys/mman.h>
+#include <time.h>
 #include "common.h"
 #include "CppUTest/TestHarness.h"
 #include "CppUTest/TestRegistry.h"
@@ -58,9 +64,11 @@ struct TestSpec {
     int conts;
     int group;
     bool inRunner;
+    long tickUsec;                   // > 0: periodic SIGUSR1 (no SA_RESTART) while the parent waits
+    long ticks, elapsedMs;
     std::vector<std::string> envLines, failLines;
     std::string forkLine;
-    TestSpec() : real(false), forkFails(false), next(0), starved(false), phase(PH_NONE), inject(0), injected(0), pid(0), conts(0), group(0), inRunner(false) {}
+    TestSpec() : real(false), forkFails(false), next(0), starved(false), phase(PH_NONE), inject(0), injected(0), pid(0), conts(0), group(0), inRunner(false), tickUsec(0), ticks(0), elapsedMs(0) {}
 };
 
 std::vector<TestSpec> g_tests;
@@ -73,12 +81,45 @@ int g_marker_fd = -1;
 int g_console_fd = -1;               // cli mode: everything "printed to stdout" by parent and children
 bool g_cli = false;
 pid_t g_case_pid = 0;
+int (*g_tree_fork)(void) = 0;                    // the tree's own seam implementations
+int (*g_tree_waitpid)(int, int*, int) = 0;
+volatile sig_atomic_t g_ticks = 0;
+timer_t g_timer;
+bool g_timer_on = false;
+struct timespec g_tick_t0;
+
+extern "C" void on_tick(int) { g_ticks++; }
+
+void start_ticks(long usec) {
+    struct sigaction sa; memset(&sa, 0, sizeof sa);
+    sa.sa_handler = on_tick; sa.sa_flags = 0;            // deliberately no SA_RESTART
+    sigemptyset(&sa.sa_mask);
+    sigaction(SIGUSR1, &sa, 0);
+    struct sigevent sev; memset(&sev, 0, sizeof sev);
+    sev.sigev_notify = SIGEV_SIGNAL; sev.sigev_signo = SIGUSR1;
+    g_ticks = 0;
+    clock_gettime(CLOCK_MONOTONIC, &g_tick_t0);
+    if (timer_create(CLOCK_MONOTONIC, &sev, &g_timer) != 0) return;
+    struct itimerspec its;
+    its.it_value.tv_sec = usec / 1000000; its.it_value.tv_nsec = (usec % 1000000) * 1000;
+    its.it_interval = its.it_value;
+    timer_settime(g_timer, 0, &its, 0);
+    g_timer_on = true;
+}
+
+void stop_ticks() {
+    if (!g_timer_on) return;
+    timer_delete(g_timer);
+    g_timer_on = false;
+    signal(SIGUSR1, SIG_IGN);
+}
 
 void flush_test_lines(int t) {
     TestSpec& s = g_tests[(size_t) t];
     if (!s.forkLine.empty()) vh::emit("%s", s.forkLine.c_str());
     for (size_t i = 0; i < s.envLines.size(); i++) vh::emit("%s", s.envLines[i].c_str());
     if (s.starved) vh::emit("starved %d", t);
+    if (s.tickUsec > 0 && s.real) vh::emit("ticks %d %ld %ld", t, s.ticks, s.elapsedMs);
     if (!s.real) { vh::emit("consumed %d %lu", t, (unsigned long) s.next); vh::emit("conts %d %d", t, s.conts); }
     for (size_t i = 0; i < s.failLines.size(); i++) vh::emit("%s", s.failLines[i].c_str());
     s.forkLine.clear(); s.envLines.clear(); s.failLines.clear();
@@ -127,16 +168,20 @@ extern "C" int seam_fork(void) {
     if (!s.real) { snprintf(buf, sizeof buf, "forked %d ok", g_cur); s.forkLine = buf; return (int) getpid(); }
     snprintf(buf, sizeof buf, "forked %d real", g_cur); s.forkLine = buf;
     fflush(stdout); fflush(stderr);
-    pid_t p = fork();
+    pid_t p = g_tree_fork ? (pid_t) g_tree_fork() : fork();
     if (p == 0) {
         g_in_child = true;
+        signal(SIGUSR1, SIG_IGN);
         prctl(PR_SET_PDEATHSIG, SIGKILL);
         if (getppid() != g_case_pid) _exit(98);
         signal(SIGALRM, SIG_DFL); signal(SIGCONT, SIG_DFL);
         alarm(30);
         return 0;
     }
-    if (p > 0) s.pid = p;
+    if (p > 0) {
+        s.pid = p;
+        if (s.tickUsec > 0) start_ticks(s.tickUsec);
+    }
     return (int) p;
 }
 
@@ -160,7 +205,9 @@ extern "C" int seam_waitpid(int pid, int* status, int options) {
         snprintf(buf, sizeof buf, "rwait %d eintr", g_cur); s.envLines.push_back(buf);
         errno = EINTR; return -1;
     }
-    int r = waitpid(pid, status, options);
+    // the tree's own PlatformSpecificWaitPid implementation (not a bare waitpid): what it does with
+    // an interrupted wait is part of what is checked
+    int r = g_tree_waitpid ? g_tree_waitpid(pid, status, options) : waitpid(pid, status, options);
     int e = errno;
     if (r < 0 && e == EINTR) snprintf(buf, sizeof buf, "rwait %d eintr", g_cur);
     else if (r < 0) snprintf(buf, sizeof buf, "rwait %d err %d", g_cur, e);
@@ -204,6 +251,10 @@ void act(int phase, UtestShell* test, TestResult* result) {
             raise(sig);
         }
         else if (a.what == "exit") _exit((int) a.arg);
+        else if (a.what == "sleep") {
+            struct timespec ts; ts.tv_sec = a.arg / 1000; ts.tv_nsec = (a.arg % 1000) * 1000000L;
+            while (nanosleep(&ts, &ts) != 0 && errno == EINTR) { }
+        }
         else if (a.what == "stop") kill(getpid(), SIGSTOP);
         else if (a.what == "fail") {
             char msg[64]; snprintf(msg, sizeof msg, "childfailure-of-test-%d-", g_cur);
@@ -240,7 +291,19 @@ public:
         Base::printCurrentTestEnded(res);
         if (g_in_child) return;
         if (g_cur >= 0) {
-            g_tests[(size_t) g_cur].conts = (int) g_sigconts;
+            TestSpec& s = g_tests[(size_t) g_cur];
+            if (g_timer_on) {
+                stop_ticks();
+                struct timespec t1; clock_gettime(CLOCK_MONOTONIC, &t1);
+                s.ticks = (long) g_ticks;
+                s.elapsedMs = (long) ((t1.tv_sec - g_tick_t0.tv_sec) * 1000 + (t1.tv_nsec - g_tick_t0.tv_nsec) / 1000000);
+                if (s.pid > 0) {                 // the parent gave up on a child that is still running: reap it now
+                    kill(s.pid, SIGKILL); kill(s.pid, SIGCONT);
+                    int st; while (waitpid(s.pid, &st, 0) < 0 && errno == EINTR) { }
+                    s.pid = 0;
+                }
+            }
+            s.conts = (int) g_sigconts;
             flush_test_lines(g_cur);
         }
         vh::emit("ended %d", g_cur);
@@ -308,6 +371,8 @@ void run_registry() {
 
     int (*savedFork)(void) = PlatformSpecificFork;
     int (*savedWait)(int, int*, int) = PlatformSpecificWaitPid;
+    g_tree_fork = savedFork;
+    g_tree_waitpid = savedWait;
     PlatformSpecificFork = seam_fork;
     PlatformSpecificWaitPid = seam_waitpid;
     void (*savedFPuts)(const char*, PlatformSpecificFile) = PlatformSpecificFPuts;
@@ -399,6 +464,7 @@ void run_registry() {
         for (size_t k = 0; k < n; k++) { g_shells[k]->testFunction_ = 0; delete g_shells[k]; }
         for (size_t k = 0; k < bodies.size(); k++) delete bodies[k];
     }
+    stop_ticks();
     PlatformSpecificFork = savedFork;
     PlatformSpecificWaitPid = savedWait;
     PlatformSpecificFPuts = savedFPuts;
@@ -453,6 +519,10 @@ void run_case(const vh::Case& c) {
         else if (w[0] == "grp" && w.size() == 3 && parse_t(w, t)) {
             char* end = 0; unsigned long g = strtoul(w[2].c_str(), &end, 10);
             if (end && !*end && g < 1000) { g_tests[t].group = (int) g; vh::emit_op(c.raw[i]); continue; }
+        }
+        else if (w[0] == "tick" && w.size() == 3 && parse_t(w, t)) {
+            char* end = 0; unsigned long us = strtoul(w[2].c_str(), &end, 10);
+            if (end && !*end && us >= 100 && us <= 1000000) { g_tests[t].tickUsec = (long) us; vh::emit_op(c.raw[i]); continue; }
         }
         else if (w[0] == "cli" && w.size() == 1 && !g_tests.empty() && !g_cli) {
             g_cli = true; vh::emit_op("cli"); continue;
